@@ -654,6 +654,7 @@ fn export_mono<'tcx>(cx: &Cx<'tcx>, out: &mut String) {
             out.push_str(&cx.ty(d.ty));
         }
         out.push_str("],\"blocks\":[");
+        let mut fnrefs: Vec<usize> = Vec::new();
         for (bi, bb) in body.basic_blocks.iter().enumerate() {
             if bi > 0 {
                 out.push(',');
@@ -805,10 +806,13 @@ fn export_mono<'tcx>(cx: &Cx<'tcx>, out: &mut String) {
             out.push('}');
             // fn items mentioned as values (passed as Fn arguments)
             for f in found {
-                get_id(f, &mut ids, &mut order, &mut work);
+                let fid = get_id(f, &mut ids, &mut order, &mut work);
+                if !fnrefs.contains(&fid) {
+                    fnrefs.push(fid);
+                }
             }
         }
-        out.push_str("]}");
+        let _ = write!(out, "],\"fnrefs\":{:?}}}", fnrefs);
     }
     out.push_str("\n]");
 }
@@ -889,6 +893,28 @@ fn export_poly<'tcx>(cx: &Cx<'tcx>, out: &mut String) {
         let mut ptrcmps = Vec::new();
         let mut asm = 0usize;
         let mut none: Option<&mut Vec<Instance<'tcx>>> = None;
+        let read_locals = {
+            use rustc_middle::mir::visit::{MutatingUseContext, NonMutatingUseContext, PlaceContext, Visitor};
+            struct Rd(BTreeSet<usize>);
+            impl<'tcx> Visitor<'tcx> for Rd {
+                fn visit_local(&mut self, l: mir::Local, ctx: PlaceContext, _loc: mir::Location) {
+                    let is_read = match ctx {
+                        PlaceContext::NonMutatingUse(NonMutatingUseContext::PlaceMention) => false,
+                        PlaceContext::NonMutatingUse(_) => true,
+                        PlaceContext::MutatingUse(MutatingUseContext::Borrow)
+                        | PlaceContext::MutatingUse(MutatingUseContext::RawBorrow)
+                        | PlaceContext::MutatingUse(MutatingUseContext::Projection) => true,
+                        _ => false,
+                    };
+                    if is_read {
+                        self.0.insert(l.as_usize());
+                    }
+                }
+            }
+            let mut r = Rd(BTreeSet::new());
+            r.visit_body(body);
+            r.0
+        };
         let mut scan_operand = |o: &Operand<'tcx>, statics: &mut Vec<String>, fnvalues: &mut Vec<String>, mentions: &mut BTreeSet<String>| {
             if let Operand::Constant(c) = o {
                 if let Some(sd) = c.check_static_ptr(tcx) {
@@ -1010,8 +1036,20 @@ fn export_poly<'tcx>(cx: &Cx<'tcx>, out: &mut String) {
             }
             let t = bb.terminator();
             match &t.kind {
-                TerminatorKind::Call { func, args, .. } => {
+                TerminatorKind::Call { func, args, destination, .. } => {
                     let (_, info) = cx.callee_info(body, func, false);
+                    let dest_used = destination.local.as_usize() == 0
+                        || !destination.projection.is_empty()
+                        || read_locals.contains(&destination.local.as_usize());
+                    let ret_ty = destination.ty(&body.local_decls, tcx).ty;
+                    let ret_kind = match ret_ty.kind() {
+                        ty::Adt(ad, _) => match tcx.get_diagnostic_name(ad.did()) {
+                            Some(n) if n.as_str() == "Option" => "option",
+                            Some(n) if n.as_str() == "Result" => "result",
+                            _ => "adt",
+                        },
+                        _ => "other",
+                    };
                     if let ty::FnDef(d, a) = func.ty(&body.local_decls, tcx).kind() {
                         mentions.insert(format!("{}|{}", cx.krate_of(*d), tcx.def_path_str(*d)));
                         for ga in a.iter() {
@@ -1026,9 +1064,12 @@ fn export_poly<'tcx>(cx: &Cx<'tcx>, out: &mut String) {
                         argtys.push(jstr(&format!("{:?}", a.node.ty(&body.local_decls, tcx))));
                     }
                     calls.push(format!(
-                        "{{{},\"argtys\":{},\"span\":{}}}",
+                        "{{{},\"argtys\":{},\"ret\":{},\"ret_kind\":\"{}\",\"dest_used\":{},\"span\":{}}}",
                         info,
                         jlist(&argtys),
+                        jstr(&format!("{:?}", ret_ty)),
+                        ret_kind,
+                        dest_used,
                         cx.span(t.source_info.span)
                     ));
                 }
